@@ -973,6 +973,22 @@ def oracle(ctx, factor, seeds):
 
     def where(space, comps):
         return [c.name for c in comps] if comps is not None else space.name
+
+    # (i') product spaces with one component: the fitting names are a singleton container / a pattern denoting a
+    # 1-tuple; expectations by hand, cross-checked against sympy.symbols, then every fixed space against sympy
+    for p, want1, wantn in ONE_FIXED:
+        for P, comp in ones:
+            for plural, f, want in ((False, element_of, want1), (True, elements_of, wantn)):
+                o.evaluations += 1
+                bad = check_one(o, P, comp, p, want, plural, f, symbols)
+                if bad:
+                    o.fail(bad[0], bad[1], pattern=p, op='elems' if plural else 'elem', space=[comp.name])
+        for space, comps in fixed_spaces:
+            for plural, f in ((False, element_of), (True, elements_of)):
+                o.evaluations += 1
+                bad = check_elements(o, space, p, plural, f, symbols, comps)
+                if bad:
+                    o.fail(bad[0], bad[1], pattern=p, op='elems' if plural else 'elem', space=where(space, comps))
     # (i) the single-name entry point, expectations worked out by hand (element_of on a scalar and a vector space)
     for p, want in ELEM_FIXED:
         ref = call(symbols, p)
@@ -997,21 +1013,6 @@ def oracle(ctx, factor, seeds):
                     names_of(ref[1]) if ref[0] == 'ok' else type(ref[1]).__name__), pattern=p, op='elem', space=space.name)
             else:
                 o.count('elem-fixed:' + ('ok' if isinstance(want, str) else 'refused'))
-        for space, comps in fixed_spaces:
-            for plural, f in ((False, element_of), (True, elements_of)):
-                o.evaluations += 1
-                bad = check_elements(o, space, p, plural, f, symbols, comps)
-                if bad:
-                    o.fail(bad[0], bad[1], pattern=p, op='elems' if plural else 'elem', space=where(space, comps))
-    # (i') product spaces with one component: the fitting names are a singleton container / a pattern denoting a
-    # 1-tuple; expectations by hand, cross-checked against sympy.symbols, then every fixed space against sympy
-    for p, want1, wantn in ONE_FIXED:
-        for P, comp in ones:
-            for plural, f, want in ((False, element_of, want1), (True, elements_of, wantn)):
-                o.evaluations += 1
-                bad = check_one(o, P, comp, p, want, plural, f, symbols)
-                if bad:
-                    o.fail(bad[0], bad[1], pattern=p, op='elems' if plural else 'elem', space=[comp.name])
         for space, comps in fixed_spaces:
             for plural, f in ((False, element_of), (True, elements_of)):
                 o.evaluations += 1
